@@ -45,17 +45,8 @@ def run(ctx):
         return
 
     # (1) order relations
-    for a, b in zip(CHAIN, CHAIN[1:]):
-        ctx.check(table[a] < table[b], "lbp-order", f"{a}<{b}",
-                  f"lbp({a})={table[a]} < lbp({b})={table[b]}", "lexer::Token::lbp")
-    for c in CMP[1:]:
-        ctx.check(table[c] == table["Eq"], "lbp-order", f"Eq={c}",
-                  f"lbp({c})={table[c]} == lbp(Eq)={table['Eq']}", "lexer::Token::lbp")
-    for z in ZERO:
-        ctx.check(table[z] == 0, "lbp-zero", z,
-                  f"lbp({z})={table[z]} is the minimum power 0 (terminates every operand parse)",
-                  "lexer::Token::lbp")
-    ctx.check(table["Pipe"] > 0, "lbp-zero", "Pipe>0", "lbp(Pipe) > 0 so that expr(0) continues over a pipe")
+    check_lbp_relations(ctx, table)
+    ctx.attempt("check_token_equality", check_token_equality, ctx, lib)
 
     # (2) projection threshold
     stop = lib.consts.get("parser::PROJECTION_STOP", {}).get("int")
@@ -81,6 +72,35 @@ def run(ctx):
     # through expr(lbp) like an identifier, not stop at the closing brace (dispatch rows shared with C03)
     from .c03 import check_dispatch
     ctx.attempt("check_dispatch", check_dispatch, ctx, lib)
+
+
+def check_lbp_relations(ctx, table):
+    """The order relations of the binding-power table (shared with C06: what an expression reference's operand is — and hence
+    what kind of value reaches the validator — is decided by `&` ending every operand parse and its operand's own power)."""
+    for a, b in zip(CHAIN, CHAIN[1:]):
+        ctx.check(table[a] < table[b], "lbp-order", f"{a}<{b}",
+                  f"lbp({a})={table[a]} < lbp({b})={table[b]}", "lexer::Token::lbp")
+    for c in CMP[1:]:
+        ctx.check(table[c] == table["Eq"], "lbp-order", f"Eq={c}",
+                  f"lbp({c})={table[c]} == lbp(Eq)={table['Eq']}", "lexer::Token::lbp")
+    for z in ZERO:
+        ctx.check(table[z] == 0, "lbp-zero", z,
+                  f"lbp({z})={table[z]} is the minimum power 0 (terminates every operand parse)",
+                  "lexer::Token::lbp")
+    ctx.check(table["Pipe"] > 0, "lbp-zero", "Pipe>0", "lbp(Pipe) > 0 so that expr(0) continues over a pipe")
+
+
+
+def check_token_equality(ctx, lib):
+    """The parser decides by comparing tokens (`peek(0) == &Token::Rbracket`, `match`): every rule here reads such a test as a
+    test of the token's kind. That holds when `==` on Token is the derived structural equality (same kind, same payload) —
+    a hand-written impl could identify two kinds (shared with C03)."""
+    rule = "token-equality"
+    b = ctx.fn("<lexer::Token as std::cmp::PartialEq>::eq", rule=rule)
+    if b is None:
+        return
+    ctx.check(bool(b.j.get("auto_derived")), rule, "derived",
+              "`==` on lexer::Token is the derived structural equality (kinds are never identified)", b.span)
 
 
 # ---------------------------------------------------------------------------
